@@ -1,2 +1,177 @@
-import BsVerif.Model.StepOps
-/-! # C02 (theorems follow) -/
+import BsVerif.Props.C01
+/-!
+# C02 — debugging never changes what the program computes, no patch left behind
+(the part about the command alphabet of C01: `break`, `remove`, `start`, `continue`)
+
+Same model, same specification (`Spec`, `PatchInv`) and same hypotheses as `Props/C01.lean`.
+-/
+namespace BsVerif.Bp
+open BsVerif.Mem
+
+private theorem inv_of_patchInv {orig s} (h : PatchInv orig s) (hs : s.status ≠ .exited) (hi : s.idx ≤ s.τ.length) :
+    Inv orig s := ⟨h.text hs, h.saved, h.distinct, h.enabled, hi⟩
+
+private theorem patchInv_of_inv {orig s} (h : Inv orig s) : PatchInv orig s :=
+  ⟨fun _ => h.text, h.saved, h.nodup, h.allEn⟩
+
+/-- **C02_step_over_executes_once.**  In any live state that satisfies the patch invariant and is stopped at a
+registered breakpoint `b` (pc = `p`), `step_over_breakpoint` (disable → single step → enable) executes exactly the
+one instruction at `p` — `idx` advances by exactly 1 and the execution log grows by exactly that instruction, so
+nothing is skipped or executed twice — on its ORIGINAL byte,
+and leaves the text, the registry lookups and the patch invariant as they were. -/
+theorem C02_step_over_executes_once (orig : Code) (s : St) (p : Addr) (b : Bp)
+    (ho : Bytes orig) (hinv : PatchInv orig s) (hs : s.status ≠ .exited)
+    (hpc : pc s = some p) (hb : find? s.active p = some b) (hcc : orig p ≠ 0xCC) :
+    (stepOverBreakpoint s).idx = s.idx + 1 ∧
+    (stepOverBreakpoint s).execd = s.execd ++ [(s.idx, orig p)] ∧
+    (bpDisable s b).1.code p = orig p ∧
+    (stepOverBreakpoint s).code = s.code ∧
+    (∀ a, find? (stepOverBreakpoint s).active a = find? s.active a) ∧
+    PatchInv orig (stepOverBreakpoint s) ∧
+    (stepOverBreakpoint s).status = s.status := by
+  have hi : s.idx ≤ s.τ.length := Nat.le_of_lt (pc_some hpc).1
+  have h := inv_of_patchInv hinv hs hi
+  obtain ⟨g1, g2, g3, g4, _, g6, _, _⟩ := stepOver_at h ho p b hpc hb
+  rw [if_neg (show ¬ orig p = INT3 from hcc)] at g4
+  have ge := stepOver_at_execd h ho p b hpc hb
+  rw [if_neg (show ¬ orig p = INT3 from hcc)] at ge
+  refine ⟨g4, ge, ?_, g2, g3, patchInv_of_inv g1, g6⟩
+  have hbm := find?_some hb
+  have hsv : b.saved = orig p := by rw [h.saved b hbm.1, hbm.2]
+  rw [bpDisable_code s b (h.bytes ho) (by rw [hsv]; exact ho _), hbm.2, hsv, set_apply]
+  simp
+
+/-- when the byte at `p` is not the original one, nothing is executed: the converse reading of the hypothesis
+`orig p ≠ 0xCC` of the previous theorem (the debuggee's own `int3` is outside the model, DESIGN 2.1) -/
+example : (0x90 : Nat) ≠ 0xCC := by decide
+
+/-- **C02_text_at_prompt.**  After every command history (hypotheses of `C01_continue_projection`): before `start`
+the text is the original text; at every prompt with a live debuggee the byte at an address is `0xCC` iff the
+address is the entry address (the debugger's documented internal entry-point breakpoint) or a user breakpoint
+currently set, and the original byte otherwise.  No other patch exists: nothing is left behind. -/
+theorem C02_text_at_prompt (τ : List Addr) (entry : Addr) (orig : Code) (exitCode : Nat) (ops : List Op)
+    (ho : Bytes orig) (hcc : ∀ a ∈ τ, orig a ≠ 0xCC) (hhead : τ.head? = some entry)
+    (hb : NoBreakAtEntry entry ops) (hr : NoRemoveAtEntry entry ops) :
+    ((execAll (init τ entry orig exitCode) ops).1.status = .unload →
+      ∀ a, (execAll (init τ entry orig exitCode) ops).1.code a = orig a) ∧
+    ((execAll (init τ entry orig exitCode) ops).1.status = .inProgress →
+      ∀ a, (execAll (init τ entry orig exitCode) ops).1.code a
+        = if a = entry ∨ a ∈ (Spec.run τ exitCode {} ops).1.B then 0xCC else orig a) := by
+  obtain ⟨_, hsim⟩ := C01_simulation τ exitCode orig entry ho hcc hhead ops _ _
+    (C01_sim_init τ exitCode orig entry) hb hr
+  have hst := C01_sim_status hsim
+  obtain ⟨_, _, hm⟩ := hsim
+  constructor
+  · intro hu a
+    rw [hst] at hu; rw [hu] at hm
+    rw [hm.1.code]
+  · intro hp a
+    rw [hst] at hp; rw [hp] at hm
+    obtain ⟨hl, _⟩ := hm
+    rw [hl.inv.text' a]
+    have hk := hl.kinds a
+    unfold kindAt at hk
+    cases hf : find? (execAll (init τ entry orig exitCode) ops).1.active a with
+    | none =>
+      rw [hf] at hk
+      by_cases he : a = entry
+      · simp [he] at hk
+      · by_cases hB : a ∈ (Spec.run τ exitCode {} ops).1.B
+        · simp [he, hB] at hk
+        · simp [he, hB]
+    | some b =>
+      rw [hf] at hk
+      by_cases he : a = entry
+      · simp [he, INT3]
+      · by_cases hB : a ∈ (Spec.run τ exitCode {} ops).1.B
+        · simp [hB, INT3]
+        · simp [he, hB] at hk
+
+/-- **C02_text_after_remove.**  Right after `remove a` (any history before it) the byte at `a` is the original one,
+as long as the process exists. -/
+theorem C02_text_after_remove (τ : List Addr) (entry : Addr) (orig : Code) (exitCode : Nat) (pre : List Op) (a : Addr)
+    (ho : Bytes orig) (hcc : ∀ a ∈ τ, orig a ≠ 0xCC) (hhead : τ.head? = some entry)
+    (hb : NoBreakAtEntry entry pre) (hr : NoRemoveAtEntry entry (pre ++ [.remove a]))
+    (hs : (exec (execAll (init τ entry orig exitCode) pre).1 (.remove a)).1.status ≠ .exited) :
+    (exec (execAll (init τ entry orig exitCode) pre).1 (.remove a)).1.code a = orig a := by
+  have hr1 : NoRemoveAtEntry entry pre := fun o h => hr o (List.mem_append_left _ h)
+  have hra : Op.remove a ≠ .remove entry := hr _ (List.mem_append_right _ (List.mem_singleton.mpr rfl))
+  have hae : a ≠ entry := fun e => hra (e ▸ rfl)
+  obtain ⟨_, s1⟩ := C01_simulation τ exitCode orig entry ho hcc hhead pre _ _ (C01_sim_init τ exitCode orig entry) hb hr1
+  obtain ⟨_, s2⟩ := C01_simulation_step τ exitCode orig entry ho hcc hhead _ _ s1 (.remove a) (by simp) hra
+  have hst := C01_sim_status s2
+  obtain ⟨_, _, hm⟩ := s2
+  have hnotB : a ∉ ((Spec.run τ exitCode {} pre).1.step τ exitCode (.remove a)).1.B ∨
+      ((Spec.run τ exitCode {} pre).1.step τ exitCode (.remove a)).1.status = .exited := by
+    cases hs' : (Spec.run τ exitCode {} pre).1.status <;> simp only [Spec.step, hs']
+    · exact Or.inl (fun hm => by simpa using (List.mem_filter.mp hm).2)
+    · exact Or.inl (fun hm => by simpa using (List.mem_filter.mp hm).2)
+    · exact Or.inr trivial
+  rcases hnotB with hnotB | hex
+  · cases hs2 : ((Spec.run τ exitCode {} pre).1.step τ exitCode (.remove a)).1.status with
+    | unload => rw [hs2] at hm; rw [hm.1.code]
+    | inProgress =>
+      rw [hs2] at hm
+      obtain ⟨hl, _⟩ := hm
+      rw [hl.inv.text' a]
+      have hk := hl.kinds a
+      rw [if_neg hae, if_neg hnotB] at hk
+      unfold kindAt at hk
+      cases hf : find? (exec (execAll (init τ entry orig exitCode) pre).1 (.remove a)).1.active a with
+      | none => rfl
+      | some b => rw [hf] at hk; cases hk
+    | exited => rw [hst, hs2] at hs; exact absurd rfl hs
+  · rw [hst, hex] at hs; exact absurd rfl hs
+
+/-- **C02_native_equivalence** (for this command alphabet).  The model carries a ghost log `execd` (never read by
+the model) to which `PTRACE_CONT` (`run`) and `PTRACE_SINGLESTEP` (`singleStep`) — the only ways the debuggee ever
+executes anything — append every instruction they execute, as (trace position, byte found at its pc at that moment).
+After EVERY command history (any trace, any entry address, no hypothesis on the commands) that log is exactly the
+native run up to the current position: positions `0, 1, …, idx-1`, each exactly once, in order, each executed on its
+ORIGINAL byte.  So what the debuggee has computed is what the same prefix of its native run computes; and the
+position only moves forward and stays within the trace. -/
+theorem C02_native_equivalence (τ : List Addr) (entry : Addr) (orig : Code) (exitCode : Nat) (ho : Bytes orig)
+    (ops : List Op) :
+    (execAll (init τ entry orig exitCode) ops).1.execd
+      = (List.range (execAll (init τ entry orig exitCode) ops).1.idx).map (fun k => (k, orig (τ.getD k 0))) ∧
+    (execAll (init τ entry orig exitCode) ops).1.idx ≤ τ.length ∧
+    ∀ op : Op, (execAll (init τ entry orig exitCode) ops).1.idx
+      ≤ (exec (execAll (init τ entry orig exitCode) ops).1 op).1.idx := by
+  obtain ⟨g1, g2, _⟩ := execAll_ginv ho ops _ (init_ginv τ entry orig exitCode)
+  have hl := execAll_log ho ops _ (init_ginv τ entry orig exitCode) (init_log τ entry orig exitCode)
+  refine ⟨?_, ?_, fun op => (exec_ginv ho g1 op).2.2.2⟩
+  · have := hl.eq
+    rw [g2] at this
+    exact this
+  · have := g1.idxLe
+    rw [g2] at this
+    exact this
+
+/-- **C02_resumes_on_original_bytes.**  The state-level facts behind the previous theorem: in every live state
+satisfying the patch invariant, every instruction that `PTRACE_CONT` passes has its original byte, and the single step
+of `step_over_breakpoint` happens on the original byte. -/
+theorem C02_resumes_on_original_bytes (orig : Code) (ho : Bytes orig) :
+    (∀ (s : St), PatchInv orig s → s.status ≠ .exited →
+      ∀ k, s.idx ≤ k → k < (run s).idx → ∀ hk : k < s.τ.length, s.code s.τ[k] = orig s.τ[k]) ∧
+    (∀ (s : St) (p : Addr) (b : Bp), PatchInv orig s → s.status ≠ .exited → pc s = some p →
+      find? s.active p = some b → (bpDisable s b).1.code p = orig p) := by
+  refine ⟨fun s hinv hs k h1 h2 hk => ?_, fun s p b hinv hs hpc hb => ?_⟩
+  · have hne : (s.code s.τ[k] == INT3) = false :=
+      firstFrom_min (fun a => s.code a == INT3) s.τ s.idx k h1 h2 hk
+    have ht := hinv.text hs s.τ[k]
+    split at ht
+    · rw [ht] at hne; simp [INT3] at hne
+    · exact ht
+  · have hi : s.idx ≤ s.τ.length := Nat.le_of_lt (pc_some hpc).1
+    have h := inv_of_patchInv hinv hs hi
+    have hbm := find?_some hb
+    have hsv : b.saved = orig p := by rw [h.saved b hbm.1, hbm.2]
+    rw [bpDisable_code s b (h.bytes ho) (by rw [hsv]; exact ho _), hbm.2, hsv, set_apply]
+    simp
+
+/-! sanity test (not a proof): the log of a run with a loop and a removed breakpoint -/
+#guard (execAll (init [0x1000, 0x1004, 0x1008, 0x1004, 0x1008, 0x100c] 0x1000 (fun a => a % 251) 7)
+    [.brk 0x1004, .start, .cont, .remove 0x1004, .brk 0x1008, .cont]).1.execd
+  == [(0, 0x1000 % 251), (1, 0x1004 % 251), (2, 0x1008 % 251), (3, 0x1004 % 251)]
+
+end BsVerif.Bp
